@@ -3,7 +3,12 @@ import LazeModel.Model.Types
     paths* (segments without empty/`.`/`..` parts, no leading `/`); see DESIGN §3.6. -/
 namespace Laze
 
-def pathComponents (p : String) : List String := (p.splitOn "/").filter (· ≠ "")
+/-- `Path::components()`: empty and `.` segments are normalised away, except a leading `.`
+    (`CurDir`, which sorts before every normal component: represented by the empty string) -/
+def pathComponents (p : String) : List String :=
+  match (p.splitOn "/").filter (· ≠ "") with
+  | [] => []
+  | c :: rest => (if c == "." then "" else c) :: rest.filter (· ≠ ".")
 
 /-- `Utf8PathBuf::push` / `join`: an absolute argument replaces the path -/
 def pathPush (a b : String) : String :=
